@@ -87,9 +87,14 @@ def r01_2(run, model, trs):
         bykey.setdefault((t.fn.name, t.enum_name), []).append(t)
     for rel, name, en in ANCHORS:
         fns = model.find_fns(name, PIPE + rel) or model.find_fns(name)
-        if not fns:
-            raise AnalysisIncomplete(f"anchor pass `{name}` not found")
         ts = [t for t in bykey.get((name, en), [])]
+        if not fns:
+            # renamed or turned into a method: a full traversal of that enum in that file which is not another anchor stands in for it
+            others = {a[1] for a in ANCHORS}
+            ts = [t for t in trs if t.enum_name == en and t.fn.file == PIPE + rel and t.fn.name not in others]
+            fns = [t.fn for t in ts]
+            if not fns:
+                raise AnalysisIncomplete(f"anchor pass `{name}` not found")
         full = [t for t in ts if not t.catch and len(t.covered) == len(t.enum["variants"])]
         run.ob("R01.2", f"{name}|{en}|exhaustive without catch-all", bool(full), site(fns[0].file, fns[0].node["sp"]),
                f"{name}: " + (f"{len(full[0].covered)}/{len(full[0].enum['variants'])} variants matched explicitly" if full else
